@@ -432,6 +432,37 @@ def run_relational(ctx):
                         if not np.allclose(V[i, j], g.det_to_src(ms[i], ds[j])):
                             ctx.violation(comp, 'broadcast', 'det_to_src-value')
                             break
+                # documented output shape broadcast(mparam, dparam).shape + (ndim,) when exactly one of the two is a scalar and the
+                # other an array - of length 1 (a single-angle slice, one detector pixel), of length 3, or 2-d
+                if g.motion_params.ndim == 1:
+                    ctx.ev('vectorised')
+                    m0, d0 = ms[0], ds[0]
+                    if g.det_params.ndim == 1:
+                        darrs = [('dparam[1]', np.array([d0])), ('dparam[3]', np.array([d0, ds[1], d0])), ('dparam[1,1]', np.array([[d0]]))]
+                    else:
+                        darrs = [('dparam[1]', tuple(np.array([c_]) for c_ in d0)), ('dparam[3]', tuple(np.array([c_, c_, c_]) for c_ in d0)),
+                                 ('dparam[1,1]', tuple(np.array([[c_]]) for c_ in d0))]
+                    marrs = [('mparam[1]', np.array([m0])), ('mparam[3]', np.array(ms)), ('mparam[1,1]', np.array([[m0]]))]
+                    for meth in ('det_point_position', 'det_to_src'):
+                        f_ = getattr(g, meth)
+                        base = np.asarray(f_(m0, d0))
+                        for (tag, marr), (dtag, darr) in [(ma, ('scalar-dparam', d0)) for ma in marrs] + [(('scalar-mparam', m0), da) for da in darrs]:
+                            try:
+                                got = np.asarray(f_(marr, darr))
+                            except Exception as e:
+                                if '[1,1]' in tag + dtag:
+                                    # one mechanism in the shared base-class code (operands of different numbers of array axes are
+                                    # not brought to a common number before the einsum): reported once, not per geometry class
+                                    ctx.violation('Geometry', 'scalar-with-2d-array;' + meth, 'raises:' + type(e).__name__, message=str(e)[:150])
+                                else:
+                                    ctx.violation(comp, 'one-scalar;' + meth, 'raises:' + type(e).__name__, form='%s,%s' % (tag, dtag), message=str(e)[:150])
+                                continue
+                            arr = marr if tag != 'scalar-mparam' else (darr if g.det_params.ndim == 1 else darr[0])
+                            want_shape = np.shape(arr) + (nd,)
+                            if got.shape != want_shape:
+                                ctx.violation(comp, 'one-scalar;' + meth, 'shape', form='%s,%s' % (tag, dtag), got=got.shape, want=want_shape)
+                            elif not np.allclose(got.reshape(-1, nd)[0], base, atol=1e-12):
+                                ctx.violation(comp, 'one-scalar;' + meth, 'value', form='%s,%s' % (tag, dtag))
                 # slicing
                 if g.motion_params.ndim == 1:
                     ctx.ev('slicing/matrix')
@@ -852,6 +883,14 @@ def run_factories(ctx):
         nd = 2 + it % 2
         lo = rng.uniform(-3, 0, size=nd)
         hi = lo + rng.uniform(0.5, 4, size=nd)
+        if nd == 3:
+            # z-range kinds: straddling the source plane either way, entirely below it, entirely above it
+            zk = (it // 2) % 4
+            zlo = [-rng.uniform(2, 3), -rng.uniform(0.2, 0.8), -rng.uniform(2, 3), rng.uniform(0.2, 1.0)][zk]
+            zhi = [rng.uniform(0.2, 0.8), rng.uniform(2, 3), zlo + rng.uniform(0.5, 1.2), 0][zk]
+            if zk == 3:
+                zhi = zlo + rng.uniform(0.5, 2)
+            lo[2], hi[2] = zlo, zhi
         shape = tuple(int(s) for s in rng.integers(3, 9, size=nd))
         sp = odl.uniform_discr(lo, hi, shape)
         ctx.case('factory;%dd' % nd, it)
@@ -884,6 +923,15 @@ def run_factories(ctx):
             w = float(np.atleast_1d(w)[0])
             if w < 2 * rho * (sr + dr) / sr * (1 - 1e-9):
                 ctx.violation(name, '%dd' % nd, 'detector-narrower-than-documented-width', width=w, documented=2 * rho * (sr + dr) / sr)
+            if nd == 3:
+                # level (ii) for the height (the axial under-coverage is a listed finding: sin for tan of the half cone angle):
+                # at least the documented height 2 sin(atan(max(|z_min|, |z_max|) / (rs - rho))) (rs + rd), for volumes that reach
+                # further below the source plane than above it, lie entirely on one side of it, or straddle it
+                zabs = max(abs(float(sp.min_pt[2])), abs(float(sp.max_pt[2])))
+                hdoc = 2 * np.sin(np.arctan(zabs / (sr - rho))) * (sr + dr)
+                hgot = float(g.det_params.extent[1])
+                if hgot < hdoc * (1 - 1e-9):
+                    ctx.violation(name, '3d;axial', 'detector-lower-than-documented-height', height=hgot, documented=float(hdoc), z=(float(sp.min_pt[2]), float(sp.max_pt[2])))
             if nd == 3:
                 ctx.ev('factories')
                 g = TOMO.helical_geometry(sp, sr, dr, num_turns=2, n_pi=1, num_angles=9)
